@@ -165,12 +165,19 @@ impl Acc {
         if self.violations.iter().any(|v| v.sig == f.sig) || self.violations.len() >= MAX_VIOLATIONS {
             return;
         }
-        self.violations.push(Violation {
+        let v = Violation {
             phase: phase.to_string(),
             sig: f.sig,
             msg: f.msg,
             case,
-        });
+        };
+        // also visible to the watchdog, should the run hang later on
+        if let Ok(mut u) = UNSHRUNK.lock() {
+            if u.len() < MAX_VIOLATIONS && !u.iter().any(|x| x.sig == v.sig) {
+                u.push(v.clone());
+            }
+        }
+        self.violations.push(v);
     }
 
     /// Runs one enumerated case: counts it, shields against harness panics, matches known
